@@ -24,12 +24,12 @@ def run(chk):
     # leaf for every covenant hash with a non-zero count exist (a stale zero-count leaf would make the root depend on history)
     from props import c20
     chk.assume_note('coin tree canonical form: decided on insert_coin / remove_coin against the CoinMapping contract (as in C20)')
-    c20.coin_kernels(chk, it)
+    chk.guard(c20.coin_kernels, chk, it)
     it.base_read_hooks.pop('coins', None)
-    header_kernel(chk, it)
-    next_kernel(chk, it)
-    smt_kernel(chk, it)
-    stakes_tree_kernel(chk, it)
+    chk.guard(header_kernel, chk, it)
+    chk.guard(next_kernel, chk, it)
+    chk.guard(smt_kernel, chk, it)
+    chk.guard(stakes_tree_kernel, chk, it)
 
 
 def sym_sealed(it, st, nstakes=2):
